@@ -18,6 +18,7 @@ import ast
 import os
 import sys
 
+import pynorm
 from py2coq_arith import Unsupported
 
 SERIES = {"_market_prices": "m_mp", "_mid_prices": "m_mid", "_last_executed_prices": "m_last", "_fundamental_prices": "m_fund"}
@@ -53,8 +54,12 @@ class T:
         t = ast.unparse(e)
         if t == "self.time > 0":
             return "(m_time m >? 0)"
+        if t == "self.time <= 0":
+            return "(negb (m_time m >? 0))"
         if t == "self.is_running":
             return "(m_running m)"
+        if isinstance(e, ast.UnaryOp) and isinstance(e.op, ast.Not):
+            return f"(negb {self.cond(e.operand)})"
         if (isinstance(e, ast.Compare) and len(e.ops) == 1 and isinstance(e.ops[0], (ast.Is, ast.IsNot))
                 and isinstance(e.comparators[0], ast.Constant) and e.comparators[0].value is None):
             x = f"(is_none {self.expr(e.left)})"
@@ -104,7 +109,10 @@ class T:
                     self.positive = True
                 a = self.stmts(s.body, ind + "    ")
                 self.positive = was
+                if ast.unparse(s.test) == "self.time <= 0":
+                    self.positive = True
                 b = self.stmts(s.orelse, ind + "    ")
+                self.positive = was
                 out.append(f"{ind}let '(m, recs) :=\n{ind}  if {c} then\n" + "\n".join(a) + f"\n{ind}    (m, recs)\n{ind}  else\n"
                            + "\n".join(b) + ("\n" if b else "") + f"{ind}    (m, recs) in")
             elif isinstance(s, ast.Pass) or (isinstance(s, ast.Expr) and isinstance(s.value, ast.Constant) and isinstance(s.value.value, str)):
@@ -127,7 +135,7 @@ def translate(repo):
     if [x.arg for x in a.args] != ["self", "next_fundamental_price"] or a.vararg or a.kwarg or a.kwonlyargs or a.defaults:
         raise Unsupported("signature of _update_time")
     t = T()
-    lines = t.stmts(fs[0].body)
+    lines = t.stmts(pynorm.normalise(fs[0], cs[0], returns_none=True))
     if t.pending is not None:
         raise Unsupported(f"the expirations in `{t.pending}` are never reported")
     return ("(* GENERATED by harness/py2coq_tick.py - do not edit *)\n"
